@@ -540,6 +540,18 @@ class SourceHandler:
         if self.states.step == TransactionStep.WAITING_FOR_FINISHED:
             self._handle_wait_for_finish(packet_holder)
         if self.states.step == TransactionStep.NOTICE_OF_COMPLETION:
+            if (
+                self.transmission_mode == TransmissionMode.ACKNOWLEDGED
+                and packet_holder.pdu is not None
+                and packet_holder.pdu_type == PduType.FILE_DIRECTIVE
+                and packet_holder.pdu_directive_type == DirectiveType.FINISHED_PDU
+            ):
+                # The receiver sent the Finished PDU again, so the ACK (Finished) PDU was lost or is
+                # late. Acknowledge it again before the transaction is closed, otherwise this copy
+                # of the Finished PDU, one of the limited re-transmissions, is wasted.
+                self._prepare_finished_ack_packet(packet_holder.to_finished_pdu().condition_code)
+                self.states.step = TransactionStep.SENDING_ACK_OF_FINISHED
+                return
             self._notice_of_completion()
 
     def _transaction_start(self) -> None:
